@@ -393,10 +393,63 @@ static void ref_validate(const Plan &plan, const EncSetup &es, const Bytes &out,
 	}
 }
 
+static void enc_exec_inner(const Plan &plan, Verdict &v, Bytes &input);
+
+// Uncompressed offsets at which the LZMA2 chunks of a one-shot encoding of `input` end
+// (the encoder is deterministic: a session that has been fed the same prefix ends its
+// chunks at the same places).
+static std::vector<size_t> lzma2_chunk_ends(const Bytes &input, lzma_filter *chain)
+{
+	std::vector<size_t> ends;
+	Bytes out(input.size() + input.size() / 3 + 4096);
+	size_t op = 0;
+	if (lzma_raw_buffer_encode(chain, nullptr, input.data(), input.size(), out.data(), &op, out.size()) != LZMA_OK) return ends;
+	size_t p = 0, u = 0;
+	while (p < op) {
+		uint8_t c = out[p];
+		if (c == 0) break;
+		if (c == 1 || c == 2) { if (p + 3 > op) break; size_t n = (((size_t)out[p + 1] << 8) | out[p + 2]) + 1; p += 3 + n; u += n; }
+		else if (c >= 0x80) {
+			if (p + 5 > op) break;
+			size_t n = ((((size_t)c & 0x1F) << 16) | ((size_t)out[p + 1] << 8) | out[p + 2]) + 1;
+			size_t cs = (((size_t)out[p + 3] << 8) | out[p + 4]) + 1;
+			p += 5 + (c >= 0xC0 ? 1 : 0) + cs; u += n;
+		} else break;
+		ends.push_back(u);
+	}
+	return ends;
+}
+
 static void enc_exec(const Plan &plan, Verdict &v)
 {
-	const std::string P = plan.prop;
 	Bytes input = gen_input((int)plan.p("in_class", IN_TEXT), (size_t)plan.p("in_len", 1000), (uint64_t)plan.p("in_seed", 1));
+	if (plan.hasp("aim_delta")) {
+		// aim a flush (or the end of the input) a few bytes behind a chunk boundary that the chunk
+		// size limits forced: the parser's look-ahead has then already run into the end of the input
+		EncSetup es0;
+		setup_from_plan(plan, es0, false);
+		lzma_filter lone[2] = { { LZMA_FILTER_LZMA2, &es0.chain.lz }, { LZMA_VLI_UNKNOWN, nullptr } };
+		std::vector<size_t> ends = lzma2_chunk_ends(input, lone);
+		if (ends.size() >= 2) {
+			size_t b = ends[(size_t)plan.p("aim_chunk", 0) % (ends.size() - 1)];
+			size_t off = std::min(input.size(), b + (size_t)plan.p("aim_delta", 1));
+			Plan p2 = plan;
+			p2.ops.clear();
+			int act = (int)plan.p("aim_action", LZMA_SYNC_FLUSH);
+			if (act == LZMA_FINISH) { input.resize(off); p2.setp("in_len", (int64_t)off); }
+			else { Op f("flush"); f.set("kind", act).set("n", (int64_t)off).set("in_each", (int64_t)plan.p("aim_in_each", 1 << 20)).set("out_each", 1 << 16); p2.ops.push_back(f); }
+			Op fin("finish"); fin.set("in_each", 1 << 20).set("out_each", 1 << 16); p2.ops.push_back(fin);
+			v.count("reach.flush_aimed_behind_a_forced_chunk_boundary");
+			enc_exec_inner(p2, v, input);
+			return;
+		}
+	}
+	enc_exec_inner(plan, v, input);
+}
+
+static void enc_exec_inner(const Plan &plan, Verdict &v, Bytes &input)
+{
+	const std::string P = plan.prop;
 	EncSetup es;
 	setup_from_plan(plan, es, false);
 	SimAlloc al;
@@ -679,6 +732,28 @@ static void c12_gen(Rng &rng, Plan &plan, bool thorough)
 		plan.setp("in_class", rep[rng.below(8)]);
 		plan.setp("in_len", 20 + (int64_t)rng.size_skewed(16000));
 		gen_flush_storm(rng, plan, (size_t)plan.p("in_len"));
+		return;
+	}
+	if ((kind == EK_STREAM_ST || kind == EK_RAW) && !bcj_chain && plan.p("ch_lzma1", 0) == 0 && plan.p("ch_shape") == 0 && rng.chance(250)) {
+		// inputs long enough for the LZMA2 chunk size limits to cut a chunk, flush aimed right behind the cut
+		static const int cls[] = { IN_TEXT, IN_RANDOM, IN_MIXED, IN_X86ISH, IN_LOWENT };
+		plan.setp("in_class", cls[rng.below(5)]);
+		plan.setp("in_len", 70000 + (int64_t)rng.below(thorough ? 600000 : 230000));
+		static const int mfs[] = { LZMA_MF_HC3, LZMA_MF_HC4, LZMA_MF_HC4, LZMA_MF_BT4, LZMA_MF_BT3 };
+		plan.setp("ch_mf", mfs[rng.below(5)]);
+		plan.setp("ch_mode", rng.chance(800) ? LZMA_MODE_NORMAL : LZMA_MODE_FAST);
+		plan.setp("ch_nice", rng.chance(500) ? 64 : rng.range(8, 273));
+		plan.setp("ch_depth", 0);
+		plan.setp("ch_dict", 65536);
+		plan.setp("aim_chunk", (int64_t)rng.below(8));
+		plan.setp("aim_delta", rng.range(1, 60));
+		static const int acts[] = { LZMA_SYNC_FLUSH, LZMA_SYNC_FLUSH, LZMA_FULL_FLUSH, LZMA_FINISH };
+		int a = acts[rng.below(4)];
+		if (kind == EK_RAW && a == LZMA_FULL_FLUSH) a = LZMA_SYNC_FLUSH;
+		plan.setp("aim_action", a);
+		plan.setp("aim_in_each", rng.chance(500) ? 1 << 20 : rng.range(1, 5000));
+		plan.ops.clear();
+		Op fin("finish"); fin.set("in_each", 1 << 20).set("out_each", 1 << 16); plan.ops.push_back(fin);
 		return;
 	}
 	gen_history(rng, plan, (size_t)plan.p("in_len"), sync_ok, full_ok, kind != EK_EASY);
